@@ -610,4 +610,5 @@ pub const PROP: Prop = Prop {
         "programs do not use Math.random; Date reads the simulated clock",
     ],
     nondeterminism_is_violation: true,
+    hang_is_violation: true,
 };
